@@ -17,6 +17,7 @@ mod sig;
 mod sim;
 mod times;
 mod watch;
+mod winsim;
 
 pub fn tid() -> u64 {
     thread_local! { static T: std::cell::Cell<u64> = const { std::cell::Cell::new(0) }; }
@@ -49,6 +50,7 @@ fn main() {
         "sig" => sig::run(&args[2], &args[3]),
         "asyncs" => asyncs::run(&args[2], &args[3]),
         "regs" => regs::run(&args[2], &args[3]),
+        "winsim" => winsim::run(&args[2], &args[3]),
         "selfcheck" => {
             // used by `check.py setup`: proves interposition is live
             events::open(&args[2]);
